@@ -1,7 +1,10 @@
 (* C12 - Dictionary, JSON and file round-trips preserve the model.
-   What is proved here is the key-level part that is generic over all nine readers (Model/Dict.v, Model/Schemas.v) and the text
-   round trips every dictionary value goes through (quantities: C18; equations: C19); that the objects rebuilt by the real
-   readers have the original's physical content is established by the correspondence check (harness/c12.py) - see the manifest. *)
+   Three layers: (1) the key level, generic over every schema (Model/Dict.v) and over the thirteen key tables translated from the
+   source on every run (Model/Schemas.v); (2) the text round trips every dictionary value goes through (quantities: C18;
+   equations: C19); (3) the object level (Model/ObjDict.v): writers and readers of units systems, species, reactions, networks, grid
+   and graph spaces, systems, scripts and trajectories, each with a round-trip theorem, each compared with the code's writer and
+   reader dictionary for dictionary on every run (harness/c12.py).  File references, external array files and seeds drawn when
+   none is given are outside the model and decided by the correspondence alone - see the manifest. *)
 From Coq Require Import NArith ZArith List Lia Bool.
 From Verif Require Import Num Units ReactionText ReactionTextFacts UnitText UnitTextFacts Schemas Dict DictFacts DictRoundTrip ObjDict ObjRoundTrip.
 
